@@ -2,25 +2,6 @@
 (* Bounded instances of FFMap for C01 and C14: the force-field catalogues and the input sets TLC enumerates. *)
 EXTENDS FFMap
 
-NoDev == [unsorted |-> FALSE, firstKeeps |-> FALSE, sliceAny |-> FALSE, offByOne |-> FALSE, renumber |-> FALSE,
-          keepRemoved |-> FALSE, firstFragUnshifted |-> FALSE, treeEdges |-> FALSE, dedupKey |-> FALSE,
-          exMax |-> FALSE, exTagLost |-> FALSE, exCutoff |-> FALSE, modAnyRes |-> FALSE]
-DevUnsorted == [NoDev EXCEPT !.unsorted = TRUE]
-DevFirstKeeps == [NoDev EXCEPT !.firstKeeps = TRUE]
-DevSliceAny == [NoDev EXCEPT !.sliceAny = TRUE]
-DevOffByOne == [NoDev EXCEPT !.offByOne = TRUE]
-DevRenumber == [NoDev EXCEPT !.renumber = TRUE]
-DevKeepRemoved == [NoDev EXCEPT !.keepRemoved = TRUE]
-DevF14 == [NoDev EXCEPT !.firstFragUnshifted = TRUE]
-DevF17 == [NoDev EXCEPT !.treeEdges = TRUE]
-DevF16 == [NoDev EXCEPT !.dedupKey = TRUE]
-DevExMax == [NoDev EXCEPT !.exMax = TRUE]
-DevExTagLost == [NoDev EXCEPT !.exTagLost = TRUE]
-DevExCutoff == [NoDev EXCEPT !.exCutoff = TRUE]
-DevModAnyRes == [NoDev EXCEPT !.modAnyRes = TRUE]
-\* what the tree currently does: the open findings switched on (known_findings.d)
-DevAsIs == [NoDev EXCEPT !.firstFragUnshifted = TRUE, !.treeEdges = TRUE, !.dedupKey = TRUE]
-
 (* ---------------- block catalogue ---------------- *)
 CN == <<"c1", "c2", "c3">>
 At(an, ty, q, m, cg, res, rn) == [an |-> an, ty |-> ty, q |-> q, m |-> m, cg |-> cg, res |-> res, rn |-> rn]
@@ -79,7 +60,7 @@ KindOK(kv) == \A i \in DOMAIN kv : kv[i] = "X" => (RunEnd(kv, i) - RunStart(kv, 
 Kinds(n, ks) == {kv \in [1..n -> ks] : KindOK(kv)}
 RnOf(kv) == TLCEval([i \in DOMAIN kv |-> IF kv[i] = "X" THEN (IF (i - RunStart(kv, i)) % 2 = 0 THEN "X1" ELSE "X2") ELSE kv[i]])
 FiOf(kv) == TLCEval([i \in DOMAIN kv |-> IF kv[i] = "X" THEN "XX" ELSE ""])
-MkInpF(FFs, ff, n, start, kv, E, sel) == [ff |-> ff, F |-> FFs[ff], n |-> n, start |-> start, rn |-> RnOf(kv), fi |-> FiOf(kv), edges |-> SetToSeq(E), sel |-> sel]
+MkInpF(FFs, ff, n, start, kv, E, sel) == [id |-> 0, useApps |-> FALSE, apps |-> <<>>, ff |-> ff, F |-> FFs[ff], n |-> n, start |-> start, rn |-> RnOf(kv), fi |-> FiOf(kv), edges |-> SetToSeq(E), sel |-> sel]
 \* (kinds, edges) shapes inside the domain; the domain conditions do not depend on block sizes, so force field 1 decides them
 Shapes(FFs, n, ks) == {s \in Kinds(n, ks) \X ConnGraphs(n) : DomOK(MkInpF(FFs, 1, n, 1, s[1], s[2], <<>>))}
 GraphInputs(FFs, ffs, ns, starts, ks) ==
@@ -96,4 +77,58 @@ FFsG == << MkFF(<<BlockA(1, 1, 1), BlockB(2, 1, 1), BlockXX(1, 1, 1)>>, LinkSet(
            MkFF(<<BlockA(2, 1, 1), BlockB(2, 2, 1), BlockXX(2, 2, 1)>>, LinkSet(3), <<>>),
            MkFF(<<BlockA(1, 1, 3), BlockB(3, 2, 3), BlockXX(1, 1, 3)>>, LinkSet(2), <<>>) >>
 InputsG(ffs, ns) == GraphInputs(FFsG, ffs, ns, {1, 5}, {"A", "B", "X"})
+
+(* ---------------- instance S: every intra-block interaction set of one block ---------------- *)
+\* block A with n atoms and the interactions S of Cand(n); the second block and the link stay fixed
+BlockAS(n, S) == MkBlock("A", 1, AtomsA(n), PickV(Cand(n, "3"), S))
+\* two interactions of one section on the same atoms (multi-term entries as in GROMACS function type 9 dihedrals)
+DupBond == In("bonds", <<1, 2>>, <<"1", "0.39", "999">>)
+DupAngle == In("angles", <<1, 2, 3>>, <<"2", "109", "77">>)
+BlockADup(n) == IF n = 2 THEN MkBlock("A", 1, AtomsA(2), <<Cand(2, "3")[1], DupBond>>)
+                ELSE MkBlock("A", 1, AtomsA(3), <<Cand(3, "3")[1], Cand(3, "3")[2], Cand(3, "3")[3], DupAngle, DupBond>>)
+ShapeSets == {<<1, {}>>} \cup {<<2, S>> : S \in SUBSET (1..3)} \cup {<<3, S>> : S \in SUBSET (1..6)}
+FFsS == LET sh == SetToSeq(ShapeSets) IN
+          [x \in 1..(Len(sh) + 2) |-> IF x <= Len(sh) THEN MkFF(<<BlockAS(sh[x][1], sh[x][2]), BlockB(2, 1, 1)>>, LinkSet(1), <<>>)
+                                      ELSE MkFF(<<BlockADup(x - Len(sh) + 1), BlockB(2, 1, 1)>>, LinkSet(1), <<>>)]
+ChainKinds == {<<"A">>, <<"A", "B">>, <<"B", "A">>, <<"A", "A">>, <<"B", "A", "A">>}
+InputsS(ffs) == {MkInpF(FFsS, ff, Len(kv), st, kv, Chain(Len(kv)), <<>>) : ff \in ffs, st \in {1, 5}, kv \in ChainKinds}
+
+(* ---------------- instance M: links that remove / retype atoms, terminal modifications ---------------- *)
+PN == <<"N", "CA", "C">>
+BlockGLY == MkBlock("GLY", 1, TLCEval([a \in 1..3 |-> At(PN[a], "P5", QA[a], MA[a], CGA[a], 1, "GLY")]),
+                    <<In("bonds", <<1, 2>>, <<"1", "0.33", "5000">>), In("bonds", <<2, 3>>, <<"1", "0.34", "5100">>),
+                      In("angles", <<1, 2, 3>>, <<"2", "127", "20">>), In("exclusions", <<1, 3>>, <<>>)>>)
+BlockALA == MkBlock("ALA", 1, TLCEval([a \in 1..2 |-> At(PN[a], "P4", QB[a], MB[a], CGB[a], 1, "ALA")]),
+                    <<In("constraints", <<1, 2>>, <<"1", "0.27">>)>>)
+BlockBM == MkBlock("B", 1, TLCEval([a \in 1..2 |-> At(PN[a], "TB", QB[a], MB[a], 1, 1, "B")]), <<In("bonds", <<1, 2>>, <<"1", "0.41", "1000">>)>>)
+LBondP == [kind |-> "bond", ord |-> "+", rns |-> AllNames, a |-> "CA", b |-> "N", sec |-> "bonds", par |-> <<"1", "0.35", "1250">>]
+MAt(an, rep, ty, q) == [an |-> an, rep |-> rep, ty |-> ty, q |-> q]
+ModNter(withInter) == [name |-> "N-ter", atoms |-> <<MAt("N", TRUE, "Qd", "1.0"), MAt("CA", FALSE, "", "")>>,
+                       inters |-> IF withInter THEN <<[sec |-> "bonds", a |-> "N", b |-> "CA", par |-> <<"1", "0.9", "900">>]>> ELSE <<>>]
+ModCter == [name |-> "C-ter", atoms |-> <<MAt("CA", TRUE, "Qa", "-1.0")>>, inters |-> <<>>]
+FFsM == << \* 1: atom-removing link (replace atomname null) + retyping link + modifications without interactions
+           MkFF(<<BlockGLY, BlockALA, BlockBM>>, <<LBondP, LRemove(<<"ALA">>, "CA"), LRetype(<<"GLY">>, "CA", "ZZ", "0.75")>>, <<ModNter(FALSE), ModCter>>),
+           \* 2: modifications with an interaction, retyping link that is overridden by a modification
+           MkFF(<<BlockGLY, BlockALA, BlockBM>>, <<LBondP, LRetype(<<"GLY", "ALA">>, "N", "ZN", "0.125")>>, <<ModNter(TRUE), ModCter>>),
+           \* 3: removal, no modifications in the force field
+           MkFF(<<BlockGLY, BlockALA, BlockBM>>, <<LBondP, LRemove(<<"GLY">>, "C")>>, <<>>) >>
+SelSets(n) == {<<>>, <<[pos |-> 1, mod |-> "N-ter"]>>, <<[pos |-> n, mod |-> "C-ter"]>>, <<[pos |-> 2, mod |-> "N-ter"]>>,
+               <<[pos |-> 1, mod |-> "C-ter"], [pos |-> 1, mod |-> "N-ter"]>>}
+InputsM(ffs, ns, starts) == UNION {{MkInpF(FFsM, ff, n, st, kv, Chain(n), sel) : ff \in ffs, st \in starts, kv \in [1..n -> {"GLY", "ALA", "B"}], sel \in SelSets(n)} : n \in ns}
+
+(* ---------------- instance E: mixed exclusion distances (C14) ---------------- *)
+\* bonds along the chain c1-c2-c3 (variant 2: the last one a constraint), optional explicit exclusion c1 c3
+BlockE(name, ty, n, e, v) ==
+  LET ats == IF name = "A" THEN AtomsA(n) ELSE AtomsB(n)
+      c == Cand(n, IF name = "A" THEN "3" ELSE "4")
+      S == IF n = 1 THEN {} ELSE IF n = 2 THEN (IF v = 2 THEN {2} ELSE {1}) ELSE (IF v = 1 THEN {1, 2} ELSE IF v = 2 THEN {1, 4} ELSE {1, 2, 5})
+  IN [MkBlock(name, e, ats, PickV(c, S)) EXCEPT !.atoms = TLCEval([a \in 1..n |-> [ats[a] EXCEPT !.rn = name]])]
+LinkSetE(v) == IF v = 1 THEN <<LBond("+", "c1", "c1", <<"1", "0.47", "1250">>)>>
+               ELSE IF v = 2 THEN <<LBond(">", "c2", "c1", <<"1", "0.37", "7000">>), LBond(">", "c1", "c1", <<"1", "0.47", "1250">>)>>
+               ELSE <<LBond(">", "c3", "c1", <<"1", "0.36", "7100">>), LBond("+", "c1", "c2", <<"1", "0.38", "7200">>),
+                      [LBond("+", "c1", "c3", <<>>) EXCEPT !.sec = "exclusions"]>>
+FFE(sz, ee, lv) == MkFF(<<BlockE("A", "TA", sz[1], ee[1], sz[3]), BlockE("B", "TB", sz[2], ee[2], sz[4])>>, LinkSetE(lv), <<>>)
+FFsE(szs, ees, lvs) == LET c == SetToSeq(szs \X ees \X lvs) IN TLCEval([x \in DOMAIN c |-> FFE(c[x][1], c[x][2], c[x][3])])
+Trees(n) == {E \in ConnGraphs(n) : Cardinality(E) = n - 1}
+InputsE(FFs, gr(_), ns) == UNION {{MkInpF(FFs, ff, n, 1, kv, E, <<>>) : ff \in DOMAIN FFs, kv \in [1..n -> {"A", "B"}], E \in gr(n)} : n \in ns}
 =============================================================================
